@@ -10,8 +10,8 @@ Import ListNotations.
 Theorem C08_sync_loop_w_conservative :
   forall hashf bs nlev o now fs faults wf m lag, (forall p l, wf p l = WOk) ->
   forall stripes stop it nfail c par ne ns ni,
-    sync_loop_w hashf bs nlev o now fs faults wf m lag stripes stop it [] nfail c par ne ns ni =
-    mkWRun (sync_loop hashf bs nlev o now fs faults stripes stop c par ne ns ni) [] nfail.
+    let r := sync_loop_w hashf bs nlev o now fs faults wf m lag stripes stop it [] nfail c par ne ns ni in
+    w_run r = sync_loop hashf bs nlev o now fs faults stripes stop c par ne ns ni /\ w_lost r = [] /\ w_nfail r = nfail.
 Proof. exact sync_loop_w_nofault. Qed.
 Print Assumptions C08_sync_loop_w_conservative.
 
